@@ -698,12 +698,22 @@ pub fn generate(rng: &mut Rng, fault_free: bool, focus: &str) -> TScenario {
 impl Engine for TrackerEngine {
     type Sc = TScenario;
 
+    #[cfg(not(feature = "alloc_only"))]
     fn engine_name(&self) -> &'static str {
         match self.prop {
             "C12" => "T12",
             "C13" => "T13",
             "C14" => "T14",
             _ => "T15",
+        }
+    }
+    /// the same engine against the alloc-only (no_std) build of tracker and decoder
+    #[cfg(feature = "alloc_only")]
+    fn engine_name(&self) -> &'static str {
+        match self.prop {
+            "C12" => "T12a",
+            "C13" => "T13a",
+            _ => "T14a",
         }
     }
     fn property(&self) -> &'static str {
